@@ -119,9 +119,44 @@ func (e *Exec) heapTerm(st *State, name string) string {
 		e.ctx.declare(t, hi.sort)
 		if st.epoch == 0 {
 			e.heapFacts(st, name, t, hi, e.nextRef0, "true")
+		} else if ef := e.epochFrames[st.epoch]; ef != nil {
+			// heap first mentioned after an effect with a known frame: relate
+			// it to the version before that effect
+			old := e.heapTerm(ef.prev, name)
+			if k := ef.keep(name); k != nil {
+				e.frameAssume(ef.pc, name, t, old, k)
+			}
+			e.heapFacts(st, name, t, hi, ef.nextRefAfter, ef.pc)
 		}
 	}
 	return t
+}
+
+// epochFrame describes an effect after which every heap not explicitly
+// re-versioned keeps the contents of the objects selected by keep.
+type epochFrame struct {
+	prev         *State
+	pc           string
+	nextRefAfter string
+	keep         func(heap string) func(r string) string
+}
+
+// freshAllHavoc: the effect may allocate and initialise arbitrary new
+// objects (in any heap) in addition to what was havoced explicitly. All heaps
+// not in `explicit` get a lazily declared new version that agrees with the
+// previous one on every object that existed before.
+func (e *Exec) freshAllHavoc(st *State, prev *State, explicit map[string]string) {
+	preRef := prev.nextRef
+	ep := e.newEpoch()
+	e.epochFrames[ep] = &epochFrame{prev: prev, pc: st.pc, nextRefAfter: st.nextRef,
+		keep: func(heap string) func(r string) string {
+			return func(r string) string { return lt(app("root", r), preRef) }
+		}}
+	st.epoch = ep
+	st.heaps = map[string]string{}
+	for k, v := range explicit {
+		st.heaps[k] = v
+	}
 }
 
 // entryHeapFacts: at function entry every reference stored in memory refers
@@ -321,10 +356,10 @@ func (e *Exec) elemStoreFrame(nw, term string, hi *heapInfo) {
 	if len(b) == 4 && b[0] == "store" && b[1] == sel(old, r) {
 		abs, v := b[2], b[3]
 		hit := and(eq(slRef("s"), r), eq(add(slOff("s"), "i"), abs))
-		e.ctx.assume(fmt.Sprintf("(forall ((s Slice) (i Int)) (! (= %s (ite %s %s %s)) :pattern (%s)))", newEl, hit, v, oldEl, newEl))
+		e.ctx.assume(fmt.Sprintf("(forall ((s Slice) (i Int)) (! (= %s (ite %s %s %s)) :pattern (%s) :pattern (%s)))", newEl, hit, v, oldEl, newEl, oldEl))
 		return
 	}
-	e.ctx.assume(fmt.Sprintf("(forall ((s Slice) (i Int)) (! (=> (not (= (sl_ref s) %s)) (= %s %s)) :pattern (%s)))", r, newEl, oldEl, newEl))
+	e.ctx.assume(fmt.Sprintf("(forall ((s Slice) (i Int)) (! (=> (not (= (sl_ref s) %s)) (= %s %s)) :pattern (%s) :pattern (%s)))", r, newEl, oldEl, newEl, oldEl))
 }
 
 // frameAssume: heap version nw agrees with old on every object satisfying
@@ -338,7 +373,7 @@ func (e *Exec) frameAssume(pc, name, nw, old string, keep func(r string) string)
 	if hi.kind == 'E' {
 		newEl := e.elemAt(nw, hi.valType, "s", "i")
 		oldEl := e.elemAt(old, hi.valType, "s", "i")
-		e.ctx.assume(imp(pc, fmt.Sprintf("(forall ((s Slice) (i Int)) (! (=> %s (= %s %s)) :pattern (%s)))", keep("(sl_ref s)"), newEl, oldEl, newEl)))
+		e.ctx.assume(imp(pc, fmt.Sprintf("(forall ((s Slice) (i Int)) (! (=> %s (= %s %s)) :pattern (%s) :pattern (%s)))", keep("(sl_ref s)"), newEl, oldEl, newEl, oldEl)))
 	}
 }
 
